@@ -112,6 +112,16 @@ def node_bytes(node):
         return data
     if "hex" in node:
         return bytes.fromhex(node["hex"])
+    if "pat" in node:
+        # compact deterministic content: a repeated unit cut to size, with optional insertions
+        pat = node["pat"]
+        unit = pat["unit"].encode("latin-1") or b"\0"
+        data = bytearray((unit * (pat["size"] // len(unit) + 1))[:pat["size"]])
+        for off, text in pat.get("insert", []):
+            t = text.encode("latin-1")
+            if off + len(t) <= len(data):
+                data[off:off + len(t)] = t
+        return bytes(data)
     if "content" in node:
         return node["content"].encode("latin-1")
     if "sparse" in node:
